@@ -121,6 +121,7 @@ func jStream(data []byte, mode string, failAt int) {
 			limit = failAt
 		}
 		var o []string
+		var ends []int
 		{
 			or := &scriptReader{data: data[:limit], mode: "all", failAt: -1}
 			if failAt >= 0 {
@@ -138,6 +139,7 @@ func jStream(data []byte, mode string, failAt int) {
 				var cb bytes.Buffer
 				stdjson.Compact(&cb, rm)
 				o = append(o, cb.String())
+				ends = append(ends, int(od.InputOffset())) // encoding/json: exactly the end of the value just returned
 				if len(o) > 100000 {
 					break
 				}
@@ -148,7 +150,6 @@ func jStream(data []byte, mode string, failAt int) {
 		sr := &scriptReader{data: data, mode: mode, failAt: failAt}
 		sd := json.NewDecoder(sr)
 		last := int64(0)
-		consumedEnd := 0
 		for {
 			var rm json.RawMessage
 			err := sd.Decode(&rm)
@@ -167,8 +168,16 @@ func jStream(data []byte, mode string, failAt int) {
 				break
 			}
 			// the offset lies between the end of the value just returned and the start of the next one
-			idx := bytes.Index(data[consumedEnd:], bytes.TrimSpace(rm))
-			_ = idx
+			if k := len(s); k < len(ends) {
+				lo := ends[k]
+				hi := lo
+				for hi < len(data) && (data[hi] == ' ' || data[hi] == '\t' || data[hi] == '\r' || data[hi] == '\n') {
+					hi++
+				}
+				if int(off) < lo || int(off) > hi {
+					return fmt.Sprintf("OFFSET-OUT-OF-RANGE value#%d off=%d not in [%d,%d]", k, off, lo, hi)
+				}
+			}
 			var cb bytes.Buffer
 			stdjson.Compact(&cb, rm)
 			s = append(s, cb.String())
@@ -179,7 +188,6 @@ func jStream(data []byte, mode string, failAt int) {
 			if int(off) > limit || !bytes.Equal(bytes.TrimLeft(unconsumed, " \t\r\n"), bytes.TrimLeft(data[off:limit], " \t\r\n")) || !bytes.HasSuffix(data[:limit], unconsumed) {
 				return fmt.Sprintf("BUFFERED-CONTRACT off=%d buffered=%d unread=%d", off, len(buffered), len(rest))
 			}
-			consumedEnd = int(off)
 			if len(s) > 100000 {
 				break
 			}
@@ -263,6 +271,10 @@ func c11() {
 	// (1) short streams: every failure offset, every mode
 	for i := 0; i < 12; i++ {
 		data := genStream(1+rndn(4), 0)
+		if i%3 == 1 {
+			// white space before the first value (counted by InputOffset like any other byte)
+			data = append([]byte(pick([]string{" ", "\n", "\t\r\n ", "      "})), data...)
+		}
 		if len(data) > 64 {
 			data = data[:64]
 		}
@@ -298,6 +310,26 @@ func c11() {
 			}
 		}
 	}
+	// (2b) white space runs that cross the fill boundaries (the refill starts with white space), and leading white space
+	for _, boundary := range []int{4096, 32768, 65536} {
+		for _, run := range []int{1, 2, 7, 100} {
+			for delta := -2; delta <= 2; delta++ {
+				var b bytes.Buffer
+				b.WriteString("  ")
+				for b.Len() < boundary-run/2+delta-9 {
+					b.WriteString("1234567 ")
+				}
+				b.WriteString("\"abcdefgh\"")
+				for k := 0; k < run; k++ {
+					b.WriteByte(" \n\t\r"[k%4])
+				}
+				b.WriteString("[1]   2 ")
+				for _, m := range []string{"all", "r5000"} {
+					jStream(b.Bytes(), m, -1)
+				}
+			}
+		}
+	}
 	// (3) long streams with values longer than the read quantum and the initial buffer
 	n := 6
 	if thorough {
@@ -308,6 +340,25 @@ func c11() {
 		for _, m := range []string{"all", "r100", "r5000", "dataerr"} {
 			jStream(data, m, -1)
 			jStream(data, m, rndn(len(data)+1))
+		}
+	}
+	// (3b) scan-flag hygiene across refills: buffers full of plain text (no backslash; printable ASCII only, or with
+	// new lines) followed, after the 4096 / 32768 / 65536 fill boundaries, by strings that need the slow path (escaped
+	// quote, invalid escape, raw control character, non-ASCII), and the reverse order
+	for _, boundary := range []int{4096, 32768, 65536} {
+		for _, sep := range []string{" ", "\n"} {
+			for _, tail := range []string{"\"x\\\"y\" 1", "\"bad\\qescape\" 1", "\"tab\there\" 1", "\"\\u00e9\" 2", "\"é\" 3", "\"a\\\\\" \"b\"", "[\"\\\"\",\"\\n\"] 4"} {
+				var b bytes.Buffer
+				for b.Len() < boundary+100 {
+					b.WriteString("\"aaaaaaaaaaaaaa\"" + sep)
+				}
+				plain := append([]byte(nil), b.Bytes()...)
+				b.WriteString(tail)
+				for _, m := range []string{"all", "r5000"} {
+					jStream(b.Bytes(), m, -1)
+					jStream(append([]byte(tail+sep), plain...), m, -1)
+				}
+			}
 		}
 	}
 	// (4) a stream that ends inside a value / with a syntax error
